@@ -14,12 +14,11 @@ fn value_offers(s: &[u8]) {
     if b.as_ml_literal().is_some() {
         assert!(representable_verbatim(s, Style::MlLiteral), "ml-literal offered wrongly");
     }
-    if b.as_basic_pretty().is_some() {
-        assert!(representable_verbatim(s, Style::Basic), "basic-pretty offered wrongly");
-    }
-    if b.as_ml_basic_pretty().is_some() {
-        assert!(representable_verbatim(s, Style::MlBasic), "ml-basic-pretty offered wrongly");
-    }
+    // The basic styles escape whatever needs escaping, so *offering* them is never wrong for the
+    // property (only less pretty): whether "pretty" really means "no escape needed" is witnessed,
+    // not asserted.
+    kani::cover!(b.as_basic_pretty().is_some() && representable_verbatim(s, Style::Basic) && !s.is_empty(), "basic-pretty offered for a verbatim-representable string");
+    kani::cover!(b.as_ml_basic_pretty().is_some() && representable_verbatim(s, Style::MlBasic) && !s.is_empty(), "ml-basic-pretty offered for a verbatim-representable string");
     // the documented intent of the "pretty" variants: offered whenever possible (a regression here
     // silently degrades every document the library writes, but is not a C10 violation: cover only)
     kani::cover!(b.as_literal().is_some() && !s.is_empty(), "literal offered");
@@ -37,9 +36,7 @@ fn key_offers(s: &[u8]) {
     if b.as_literal().is_some() {
         assert!(representable_verbatim(s, Style::Literal), "literal key offered wrongly");
     }
-    if b.as_basic_pretty().is_some() {
-        assert!(representable_verbatim(s, Style::Basic), "basic-pretty key offered wrongly");
-    }
+    kani::cover!(b.as_basic_pretty().is_some() && representable_verbatim(s, Style::Basic), "basic-pretty key offered for a verbatim-representable string");
     kani::cover!(b.as_unquoted().is_some(), "bare offered");
     kani::cover!(b.as_unquoted().is_none() && !s.is_empty(), "bare refused");
     kani::cover!(b.as_literal().is_none(), "literal refused");
